@@ -18,6 +18,7 @@ import Driver.Util
 import GoMC.Model.Queue
 import GoMC.Model.PlayerList
 import GoMC.Spec.FifoClose
+import GoMC.Model.TypeCache
 namespace Driver.C20
 open GoMC Driver
 open GoMC.Spec.FifoClose
@@ -406,15 +407,30 @@ def handle (op : String) (args : List String) (obs : String) : Option Verdict :=
   | "typeinfo.cache" =>
     -- `unknown:` (the cache was restructured beyond what the syntactic check understands) is a correspondence question
     some { model := "ok", spec := if obs.startsWith "bad:" then
-        some ("the nbt per-type cache is a plain map written without the exclusive lock: " ++ obs) else none }
-  | "cache.run" =>
+        some ("the nbt per-type cache is written without the exclusive lock, or a cached field table is written after it was published: " ++ obs) else none }
+  | "cache.find" =>
+    -- the model's lookup (exact spelling first, otherwise the first case-insensitive match; the table is not changed)
+    some (match kv args "fields", kv args "name" with
+      | some fs, some tn =>
+        let fields := fs.splitOn ","
+        let want := match TypeCache.findField fields tn with | some i => toString i | none => "none"
+        -- spec: exact names always win; a name that matches no field in any capitalisation is not stored anywhere
+        let spec : Option String :=
+          if obs == "panic" then some "decoder panicked" else
+          if obs.startsWith "unstable" then some "the same document decoded differently the second time (a lookup changed the shared table)" else
+          match fields.findIdx? (· == tn) with
+          | some i => if obs == toString i then none else some s!"exact field name {tn} must select field {i}"
+          | none => if !(fields.any fun f => TypeCache.equalFold f tn) && obs != "none" then some "a name that matches no field was stored" else none
+        { model := want, spec }
+      | _, _ => { model := "bad-arg" })
+  | "cache.run" | "cache.fold" =>
     let toks := obs.splitOn " "
     some (match toks.head?, kv toks "seq", kv toks "conc" with
       | some "ok", some a, some b =>
         { model := s!"ok seq={a} conc={a}",
-          spec := if a == b then none else some "NBT results under concurrent first use of the type cache differ from the sequential results" }
+          spec := if a == b then none else some "NBT results under concurrent use of the shared type cache differ from the sequential results" }
       | _, _, _ =>
-        { model := "ok", spec := some ("concurrent first use of the nbt type cache crashed the process: " ++ obs) })
+        { model := "ok", spec := some ("concurrent use of the shared nbt type cache crashed the process: " ++ obs) })
   | "race.detector" => some { model := "enabled" }
   | "race.report" => some { model := "none" }
   | _ => none
